@@ -177,36 +177,33 @@ class LibTable:
         r = assemble_content_type(*p).encode("utf-8", "surrogateescape")
         self.str_prims(ct); self.senc(assemble_content_type(*p)); return r
 
-    def url_prims(self, u):
-        """the CPython answers the model's URL transcription (Model/C41_Url.lean, C33 pySplit/urlParse) asks for u:
-        _check_bracketed_host, the IDNA round trip of the host name, is_valid_host"""
-        import urllib.parse
-        from mitmproxy.net import check as ncheck
+    def idna_prims(self, text):
+        """the IDNA slow-path answers the model's host transcription (Model/C41_Host.lean) may ask about `text`:
+        text.encode("idna") when text is not ASCII, raw.decode("idna") when the A-label form contains xn--"""
         try:
-            sp = urllib.parse.urlsplit(u); hn = sp.hostname; netloc = sp.netloc
-        except ValueError:
-            hn = None; netloc = u.partition("//")[2]
-        if "[" in netloc:
-            cand = netloc.partition("[")[2].partition("]")[0]
-            try: urllib.parse._check_bracketed_host(cand); ok = True
-            except ValueError: ok = False
-            self.put("vb", [tx(cand)], "01" if ok else "00")
-        if hn:
-            try:
-                hb = hn.encode("idna"); r = hb.decode("idna")
-                self.put("id", [tx(hn)], tx(r))
-                self.put("vh", [tx(hn)], "01" if ncheck.is_valid_host(hb) else "00")
-            except UnicodeError:
-                self.put("id", [tx(hn)], "!")
+            raw = text.encode("idna")
+            if not text.isascii(): self.put("ide", [tx(text)], hx(raw))
+        except UnicodeError:
+            if not text.isascii(): self.put("ide", [tx(text)], "!")
+            return
+        for r in (raw, raw[:-1] if raw.endswith(b".") else raw):
+            if b"xn--" in r:
+                try: self.put("idd", [hx(r)], tx(r.decode("idna")))
+                except UnicodeError: self.put("idd", [hx(r)], "!")
+
+    def url_prims(self, u):
+        import urllib.parse
+        try: hn = urllib.parse.urlsplit(u).hostname
+        except ValueError: hn = None
+        if hn: self.idna_prims(hn)
 
     def auth_prims(self, h):
-        from mitmproxy.net import check as ncheck
         from mitmproxy.net.http import url as murl
         m = murl._authority_re.match(h)
         if m:
             host = m.group("host")
             if host.startswith("[") and host.endswith("]"): host = host[1:-1]
-            self.put("va", [tx(host)], "01" if ncheck.is_valid_host(host) else "00")
+            self.idna_prims(host)
 
     def url_hostport(self, u):
         self.url_prims(u)
@@ -578,16 +575,27 @@ class Check(PropertyCheck):
                   "codec round trip on the body; urlHostport_getter / urlPretty_getter / url_guards_of_getter turn the URL and Host "
                   "conjuncts (F-C41c/d) into theorems for every flow whose URL is scheme://host[:port]/path with http/https, a lower-case "
                   "ASCII host, port 1..65535, ASCII path and whose Host field is absent or exactly host[:port]; "
-                  "import_export_preserves_url_transcribed is the guarded round trip over that library. Tie per flow: exported HAR entry fields, the re-imported flow field by field "
+                  "import_export_preserves_url_transcribed is the guarded round trip over that library. Round 5: is_valid_host (C13.validHostT), "
+                  "_check_bracketed_host (IPvFuture regex + C22.parseIp) and the ASCII fast paths of the idna codec are transcribed too "
+                  "(Model/C41_Host.lean, tied by the `hf` driver op on a pool of host texts and by every flow case); dns_host_lib_facts / "
+                  "getterUrlOk_of_dns / url_guards_of_dns_name discharge the former library hypotheses idnaAscii, hostValid, bracketedOk "
+                  "for DNS-name hosts, so F-C41c/d are excluded from input properties alone; import_export_preserves_host_transcribed. "
+                  "Clause table (statement clause -> theorem / oracle clause): method, URL, request fields apart from Content-Length, "
+                  "request body for POST/PUT/PATCH, status, response fields, decoded response body -> the seven conjuncts of sameButVer "
+                  "in import_export_preserves_partial / oracle clauses method[i], url[i], request-headers[i], request-body[i], status[i], "
+                  "response-headers[i], response-body[i]; HTTP version -> the gVer conclusion of _partial and `same` in _guarded / "
+                  "version[i]; 'yields flows ... in the same order' -> the existential + InOrder of _partial/_guarded and roundtrip_length / "
+                  "import-failed and count, on each route (file, @mem, @hardump). Tie per flow: exported HAR entry fields, the re-imported flow field by field "
                   "(exact header spelling/order, raw bodies, versions, import failure), the nine guard bits, and the model's own "
                   "predictions of is_mostly_bin / infer_content_encoding / the rewritten Content-Type must equal the real code.")
     level_note = ("partial by necessity: the code violates the full statement in 8 classes (known/C41.json), so the universal "
                   "theorem carries the guard guardButVer/gVer. Still parameters (Prim): utf-8/surrogateescape, str.upper/lower/"
                   "strip, UTF-8 validity, base64, content codings, charset codecs, the three re.search calls of "
-                  "infer_content_encoding, and of the URL side only _check_bracketed_host (ipaddress), the IDNA codec round trip of the "
-                  "host name and is_valid_host (urlsplit's scheme/netloc reading, hostname/port, the re-assembly of the rest, hostport, "
-                  "unparse, parse_authority and pretty_url are transcribed; the C33 facts GetterUrlOk.bracketedOk/idnaAscii/hostValid/"
-                  "restStable stay hypotheses of the URL theorems), and JSON; assumed laws: "
+                  "infer_content_encoding, and of the URL side only the SLOW path of the IDNA codec (decoding names that contain xn--, "
+                  "encoding non-ASCII names; C13.Idna.idnaOf would reduce the former to the nameprep tables) - urlsplit's scheme/netloc "
+                  "reading, hostname/port, the re-assembly of the rest, hostport, unparse, parse_authority, pretty_url, is_valid_host, "
+                  "_check_bracketed_host and the idna fast paths are transcribed; for IPv6-literal hosts the C33 fact bracketedOk and for "
+                  "all hosts the input condition restStable (normRestPy scheme path = path) stay hypotheses of the URL theorems; and JSON; assumed laws: "
                   "senc(sdec b)=b, ASCII fixed, method upper/encode round trip, b64decode(b64encode b)=b, json.loads(json.dumps x)=x. "
                   "Their answers are passed per case from the real functions (driver reports lib-miss if it needs an answer it was "
                   "not given; ASCII cases of sdec/senc/lower/strip/utf8 are computed by the driver). "
@@ -605,7 +613,8 @@ class Check(PropertyCheck):
     technique = "Lean 4 proof (field mapping model, codecs as parameters with laws) + per-flow differential correspondence with the real export/import"
     rule = ("small-scope sweep first (methods x versions x body kinds x Content-Length/Content-Encoding/Host variants), then "
             "random flows: methods incl. lower-case/CONNECT/extension, HTTP/1.1 / 2.0 / 3 (/1.0), header sets with duplicates, "
-            "case variants, empty / non-ASCII / non-UTF-8 values, content types with good, bad and sniffed charsets, content "
+            "case variants, empty / non-ASCII / non-UTF-8 values, plus tie-only `hostfn` cases (host texts: IPv6/IPvFuture/IPv4 literals, DNS names, "
+            "long/empty labels, xn--, non-ASCII, mutated) for the host transcriptions, content types with good, bad and sniffed charsets, content "
             "codings (valid, invalid, mismatching), text/binary/BOM/mixed bodies, mis-labelled bodies (declared charset x bytes that are "
             "valid in it / valid UTF-8 instead / contain 0x81 0x8d 0x8f 0x90 0x9d / binary), Host variants, 1-3 flows per file. "
             "distinct = distinct case; every case is non-trivial (a full export+import).")
@@ -625,12 +634,33 @@ class Check(PropertyCheck):
                     "mitmproxy.net.http.headers:infer_content_encoding", "mitmproxy.net.http.headers:parse_content_type",
                     "mitmproxy.net.http.headers:assemble_content_type", "mitmproxy.net.http.url:parse",
                     "mitmproxy.net.http.url:hostport", "mitmproxy.net.http.url:unparse", "mitmproxy.net.http.url:parse_authority",
-                    "mitmproxy.http:Request.url", "mitmproxy.http:Request.pretty_url", "mitmproxy.http:Request.host_header"]
+                    "mitmproxy.http:Request.url", "mitmproxy.http:Request.pretty_url", "mitmproxy.http:Request.host_header",
+                    "mitmproxy.net.check:is_valid_host"]
     trusted_base = ["CPython codecs (utf-8/surrogateescape, charset codecs), base64, json, zlib/brotli/zstd, urllib as the "
                     "library parameters of the model (answers taken from the real functions per case; laws assumed)",
-                    "urllib.parse.urlsplit / ipaddress / idna / is_valid_host behind mitmproxy.net.http.url (transcribed via the C33 model, CPython parts parameters)"]
+                    "urllib.parse.urlsplit / ipaddress / the idna codec behind mitmproxy.net.http.url, transcribed via the C33, C13 and C22 models (their own checks tie them); IDNA slow path a parameter"]
+
+    HOSTFN_POOL = ["::1", "fe80::1%eth0", "2001:db8::ff00:42:8329", "::ffff:1.2.3.4", "1.2.3.4", "1:2", ":::", "v1.x", "vF.a:b", "v.x", "vg.x",
+                   "v1.", "v1.a\nb", "example.com", "EXAMPLE.com.", "a_b.example", "-x.example", "a..b", ".", "", "a" * 63 + ".com", "a" * 64 + ".com",
+                   ".".join(["abcdefgh"] * 29), "xn--bcher-kva.example", "xn--a.example", "xn--", "b\u00fccher.example", "\u00e9", "exa mple.com",
+                   "example.com\n", "1.2.3.256", "01.2.3.4", "localhost", "192.0.2.7", "[::1]", "::1]", "%", "a%b"]
+
+    def hostfn(self, text):
+        import urllib.parse
+        from mitmproxy.net import check as ncheck
+        lt = LibTable(); lt.idna_prims(text)
+        try: urllib.parse._check_bracketed_host(text); vb = 1
+        except ValueError: vb = 0
+        try: rt = tx(text.encode("idna").decode("idna"))
+        except UnicodeError: rt = "!"
+        table = ";".join(f"{k}={v}" for k, v in lt.t.items()) or "-"
+        return f"{vb} {1 if ncheck.is_valid_host(text) else 0} {rt}", f"hf {tx(text)} {table}"
 
     def impl(self, case):
+        if case.get("kind") == "hostfn":
+            # tie-only case kind for the transcriptions of Model/C41_Host.lean (no clause of the property is asked here)
+            real, _ = self.hostfn(unhx(case["text_hex"]).decode("utf-8", "surrogatepass"))
+            return {"stage": "hostfn", "tie": [real], "guards": [], "refs": [], "orig": [], "routes": {}}
         flows = [build_flow(fc) for fc in case["flows"]]
         orig = [view(f) for f in flows]
         guards = [guard_bits(f) for f in flows]
@@ -697,6 +727,8 @@ class Check(PropertyCheck):
                 "refs": refs, "routes": routes}
 
     def model_lines(self, case):
+        if case.get("kind") == "hostfn":
+            return [self.hostfn(unhx(case["text_hex"]).decode("utf-8", "surrogatepass"))[1]]
         return [flow_line(build_flow(fc)) for fc in case["flows"]]
 
     def model_obs(self, case, replies):
@@ -713,6 +745,7 @@ class Check(PropertyCheck):
         """the statement, applied to every export/import route: the save.har FILE read back with read_flows_from_paths
         (failures without suffix), the in-memory make_har/json/FlowReader route (@mem) and, when its file differs from
         the save.har file, the hardump-option file (@hardump)"""
+        if obs["stage"] == "hostfn": return []
         fails = self.oracle_route(obs, obs["stage"], obs.get("err"), obs.get("back"), "")
         for name, r in (obs.get("routes") or {}).items():
             fails += self.oracle_route(obs, r["stage"], r["err"], r["back"], "@" + name)
@@ -924,7 +957,16 @@ class Check(PropertyCheck):
         if tier == "quick":
             sw = [c for i, c in enumerate(sw) if i < 120 or i % 4 == rng.randint(0, 3)]
         yield from sw
+        for t in self.HOSTFN_POOL:
+            yield {"kind": "hostfn", "text_hex": tx(t)}
         while True:
+            if rng.chance(0.03):
+                t = rng.pick(self.HOSTFN_POOL)
+                if rng.chance(0.5) and t:
+                    i = rng.randint(0, len(t) - 1)
+                    t = t[:i] + rng.pick([":", ".", "%", "v", "x", "-", "_", "0", "f", "]", "\n", "\u00fc", "xn--"]) + t[i + rng.randint(0, 1):]
+                yield {"kind": "hostfn", "text_hex": tx(t)}
+                continue
             n = rng.weighted([(8, 1), (1, 2), (1, 3)])
             yield {"flows": [self.gen_flow(rng) for _ in range(n)]}
 
@@ -932,6 +974,7 @@ class Check(PropertyCheck):
         return json.dumps(case, sort_keys=True)
 
     def branches(self, case, obs):
+        if obs["stage"] == "hostfn": return ["kind:hostfn:" + obs["tie"][0][:3]]
         out = ["stage:" + obs["stage"], f"flows:{len(case['flows'])}"]
         for fc, g in zip(case["flows"], obs["guards"]):
             out.append("ver:" + fc["ver"]); out.append("method:" + unhx(fc["method_hex"]).decode().upper())
@@ -1022,6 +1065,7 @@ class Check(PropertyCheck):
         """generic reductions, but never touch method / path / authority (an empty path or method is not a flow the
         generator can produce and fails for unrelated reasons)"""
         from common.check import generic_shrink
+        if "flows" not in case: return
         keep = ("method_hex", "path_hex", "authority_hex")
         for c in generic_shrink(case):
             if len(c["flows"]) == len(case["flows"]) and any(a[k] != b[k] for a, b in zip(c["flows"], case["flows"]) for k in keep):
@@ -1126,7 +1170,7 @@ class Check(PropertyCheck):
                 assert any(f.startswith(tag) for f in self.oracle(case, obs)), f"known_selftest: witness for {want} ({tag}) no longer fails"
 
     def neighbours(self, case, rng):
-        for i, fc in enumerate(case["flows"]):
+        for i, fc in enumerate(case.get("flows", [])):
             for k, vals in (("ver", ["HTTP/1.1", "HTTP/2.0", "HTTP/3"]), ("status", [200, 204, 404])):
                 for v in vals:
                     c = dict(fc); c[k] = v
